@@ -39,4 +39,12 @@ META = {
         'note': PROOF_NOTE + 'callee/iterator/digest are parameters; non-array receivers are covered by an implementation-side agreement oracle.',
         'technique': 'Lean 4 proof (induction over the element list, both middleware stacks vs map/filter/fold specs) + exhaustive context x form x callee-table correspondence',
     },
+    'C02': {
+        'text': 'Unbounded theorems for any precedence function: yacc\'s shift-reduce resolution builds the unique canonical tree (higher levels first, equal levels left-to-right) whose token string is the input, '
+                'and every canonical (= implied-parentheses) tree re-parses to itself. Finite obligations re-checked against regenerated facts: the %left/%right ladder equals the documented one, %prec annotations, '
+                '23 infix rules, and a translation validation of goyacc\'s resolved LALR action table (1054 state/rule/lookahead triples) against the precedence rule. Tied to the real parser by an exhaustive '
+                'operator pair/triple/construct sweep comparing ast String() with a Lean precedence parser.',
+        'note': 'Trusted: Lean kernel, standard axioms, the extractor and goyacc\'s y.output; LALR-vs-precedence-parser equivalence on all strings is not proved (finite validation + exhaustive small combinations).',
+        'technique': 'Lean 4 proof (shift-reduce = canonical tree, arbitrary precedence) + decide over regenerated grammar facts and goyacc tables + exhaustive parser correspondence',
+    },
 }
